@@ -187,20 +187,17 @@ theorem step_err_raisable (s : Spec) (op : Op) (rpc : Rpc) (e : Err)
 
 example : (step Storage.init (.deleteStudy 0)).2 = .err .keyError ∧ (Rpc.deleteStudy, Err.keyError) ∈ raisable := by decide
 
-/-- **error_class_preserved** (all but one pair): a contract exception raised by the backend inside an rpc —
-caught by the first matching `except` clause of the servicer method, turned into a status code, turned back
-by the client method — reaches the caller as the same class.  Checked against the tables read from today's
-servicer.py / client.py / exceptions.py.  The one pair left out is not preserved on today's code: next theorem. -/
-theorem error_class_preserved_partial :
-    ∀ p ∈ raisable, p ≠ (.createNewTrial, .valueError) → transport p.1 p.2 = .ok (.err p.2) := by decide
+/-- **error_class_preserved**: a contract exception raised by the backend inside an rpc — caught by the first
+matching `except` clause of the servicer method, turned into a status code, turned back by the client method —
+reaches the caller as the same class; for every (rpc, class) pair the contract can produce (`step_err_raisable`),
+`create_new_trial` + `ValueError` (U1: SQLite rejecting a conflicting template) included.  Checked against the
+tables read from today's servicer.py / client.py / exceptions.py. -/
+theorem error_class_preserved : ∀ p ∈ raisable, transport p.1 p.2 = .ok (.err p.2) := by decide
 
-/-- `create_new_trial`: the servicer method has no clause for `ValueError` (only `KeyError`), so a backend's
-`ValueError` (SQLite, for a template whose distribution conflicts with the study's: U1 of the contract) leaves the
-handler uncaught, the channel reports `UNKNOWN`, and the client re-raises the `grpc.RpcError` itself. -/
-theorem createTrial_valueError_not_preserved : transport .createNewTrial .valueError = .rpcError .unknown := by decide
-
-/-- the full-strength statement is therefore false on today's code -/
-theorem error_class_preserved_fails : ¬ (∀ p ∈ raisable, transport p.1 p.2 = .ok (.err p.2)) := by decide
+/-- the pair that was lost before the repair of `CreateNewTrial` / `create_new_trial` now goes INVALID_ARGUMENT and back -/
+example : (Rpc.createNewTrial, Err.valueError) ∈ raisable ∧
+    abortStatus .createNewTrial .valueError = .invalidArgument ∧
+    transport .createNewTrial .valueError = .ok (.err .valueError) := by decide
 
 example : (Rpc.setTrialParameter, Err.valueError) ∈ raisable ∧
     transport .setTrialParameter .valueError = .ok (.err .valueError) ∧
@@ -464,19 +461,10 @@ example : rpcOf (.getBestTrial 0) = none ∧
 
 /-! ### the refinement -/
 
-/-- the one answer today's code does not carry over (see `createTrial_valueError_not_preserved`) -/
-def lostToday (op : Op) (out : Out) : Bool :=
-  match op, out with
-  | .createTrial .., .err .valueError => true
-  | _, _ => false
-
-/-- **proxy_refines_backend** (all operations, all states, all arguments; one answer excepted): a call through
-the proxy leaves the backend in the state `Storage.step` gives for the operation in normal form, and returns /
-raises what `Storage.step` answers, in normal form.  The excepted answer — `create_new_trial` when the backend
-raises `ValueError` — is `proxy_createTrial_valueError_lost`; full strength is false today
-(`proxy_refines_backend_fails_witness`). -/
-theorem proxy_refines_backend_partial (s : Spec) (u : String) (op : Op)
-    (h : lostToday op (step s (normOp u op)).2 = false) :
+/-- **proxy_refines_backend** (all operations, all states, all arguments): a call through the proxy leaves the
+backend in the state `Storage.step` gives for the operation in normal form, and returns / raises what
+`Storage.step` answers, in normal form. -/
+theorem proxy_refines_backend (s : Spec) (u : String) (op : Op) :
     proxyStep s u op = ((step s (normOp u op)).1, .ok (normOut (step s (normOp u op)).2)) := by
   cases hr : rpcOf op with
   | none => rw [normOp_of_derived u op hr]; exact proxy_derived s u op hr
@@ -486,24 +474,10 @@ theorem proxy_refines_backend_partial (s : Spec) (u : String) (op : Op)
     cases hout : (step s (normOp u op)).2 with
     | err e =>
       have hm := step_err_raisable s (normOp u op) rpc e (by rw [rpcOf_normOp]; exact hr) hout
-      have hne : (rpc, e) ≠ (Rpc.createNewTrial, Err.valueError) := by
-        intro heq
-        cases heq
-        rw [hout] at h
-        cases op <;> simp [rpcOf] at hr
-        simp [lostToday] at h
-      simpa [wireOut, normOut] using error_class_preserved_partial (rpc, e) hm hne
+      simpa [wireOut, normOut] using error_class_preserved (rpc, e) hm
     | _ => simp [wireOut]
 
-/-- the excepted answer: the backend is unchanged and raised `ValueError`; the caller gets `grpc.RpcError(UNKNOWN)` -/
-theorem proxy_createTrial_valueError_lost (s : Spec) (u : String) (sid : Nat) (tmpl : Option Template) (ir : Bool)
-    (h : (step s (normOp u (.createTrial sid tmpl ir))).2 = .err .valueError) :
-    proxyStep s u (.createTrial sid tmpl ir) =
-      ((step s (normOp u (.createTrial sid tmpl ir))).1, .rpcError .unknown) := by
-  rw [proxy_primary s u _ .createNewTrial rfl, h]
-  simp [wireOut, createTrial_valueError_not_preserved]
-
-/-- in every case, the excepted one included, the backend's state is the contract's -/
+/-- in particular the backend's state is the contract's -/
 theorem proxy_state_refines (s : Spec) (u : String) (op : Op) :
     (proxyStep s u op).1 = (step s (normOp u op)).1 := by
   cases hr : rpcOf op with
@@ -523,10 +497,11 @@ theorem proxy_run_is_contract_run (s : Spec) (h : List (String × Op)) :
 theorem proxy_numbers_dense (h : List (String × Op)) : C01.Numbered (proxyRun Storage.init h).1 := by
   rw [proxy_run_is_contract_run]; exact C01.numbers_dense _
 
-/-- full strength (`∀ s u op, proxyStep s u op = (…, .ok (normOut …))`) is false on today's code -/
-theorem proxy_refines_backend_fails_witness :
+/-- the U1 case: the backend (with the U1 bit set, as SQLite behaves) rejects the conflicting template with
+`ValueError`, and that is what the caller of the proxy gets (before the repair: `grpc.RpcError(UNKNOWN)`) -/
+example :
     (step u1State (normOp "u" (.createTrial 0 (some u1Template) true))).2 = .err .valueError ∧
-    (proxyStep u1State "u" (.createTrial 0 (some u1Template) true)).2 = .rpcError .unknown := by decide
+    proxyStep u1State "u" (.createTrial 0 (some u1Template) true) = (u1State, .ok (.err .valueError)) := by decide
 
 /-- non-vacuity of the refinement: a history that is *changed* by the wire at every normal-form clause
 (NOT_SET direction, empty name, values `[]` in a template and in `set_trial_state_values`, unsorted
